@@ -72,6 +72,7 @@ type run struct {
 	failed          bool
 	cast            map[int][]castVote
 	byzVotes        map[int][]*bft.Message // replica votes that reached a Byzantine replica (it may assemble its own certificates)
+	lockSig         string                 // signature of the forwarded-lock oracle ("" = off): see checkForwardedLock
 	sigSuffix       string                 // appended to the two-commits signature by schedule families that name their mechanism
 }
 
@@ -288,7 +289,11 @@ func (r *run) phase(i int) bftsim.StepResult {
 			}
 		}
 	}
+	mark, lockBefore := s.EnvMark(), lockOf(s, i)
 	res := s.Phase(i)
+	if honest && before == bft.ElectionVote && r.lockSig != "" {
+		r.checkForwardedLock(i, mark, lockBefore)
+	}
 	r.log("phase %d %s->%s sent=%v why=%s", i, bftsim.PhaseName(res.Before), bftsim.PhaseName(res.After), res.Sent, res.Why)
 	r.o.Count("phase:" + bftsim.PhaseName(res.Before))
 	if res.Interrupted {
@@ -345,6 +350,39 @@ func (r *run) phase(i int) bftsim.StepResult {
 	}
 	r.flush()
 	return res
+}
+
+// checkForwardedLock: the ELECTION_VOTE of a locked honest replica carries its lock — the certificate it locked on,
+// with the block and the results that certificate certifies (a leader drops a vote whose HighQc lacks either).
+func (r *run) checkForwardedLock(i, mark int, lockBefore string) {
+	s := r.s
+	if lockBefore == "-" || r.failed {
+		return
+	}
+	for _, e := range s.Queue {
+		if e.ID <= mark || e.From != i || e.Kind != "ELECTION_VOTE" {
+			continue
+		}
+		why, hq := "", e.Msg.HighQc
+		switch {
+		case hq == nil || hq.Header == nil:
+			why = "no HighQc at all"
+		case fmt.Sprintf("%d.%d/%x/%x", hq.Header.RootHeight, hq.Header.Round, hq.BlockHash, hq.ResultsHash) != lockBefore:
+			why = "a HighQc that is not its lock"
+		case hq.Block == nil:
+			why = "its lock without the block"
+		case hq.Results == nil:
+			why = "its lock without the results"
+		case !bytes.Equal(s.Nodes[i].B.BlockToHash(hq.Block), hq.BlockHash) || !bytes.Equal(hq.Results.Hash(), hq.ResultsHash):
+			why = "its lock with another block or other results than certified"
+		}
+		if why != "" {
+			r.failed = true
+			r.o.Fail(r.lockSig, fmt.Sprintf("case %s: honest replica %d, locked on %s, sends an ELECTION_VOTE (round %d) carrying %s", r.name, i, s.CertDesc(s.Nodes[i].B.HighQC), e.Msg.Qc.Header.Round, why),
+				map[string]any{"schedule": r.sched})
+			return
+		}
+	}
 }
 
 func (r *run) phases(who []int) {
